@@ -87,6 +87,7 @@ func pRoundTrip(t *pty, v *pval) {
 		skip()
 		return
 	}
+	trace("p.rt", t.String()+"|"+v.String())
 	impl := guarded(func() string {
 		x := t.toGo(v).Addr().Interface()
 		b, err := proto.Marshal(x)
